@@ -373,6 +373,7 @@ func (h *vwsHist) opOpen() {
 	if h.pendLive && h.pendID == id {
 		s.pri = h.pendPri
 		h.pendLive = false
+		h.r.Event("prio_preopen_updates_applied", 1)
 	}
 	// a buffered update for an id that can no longer be opened is dead
 	if h.pendLive && ((h.pendID%2 == 1 && h.pendID < h.nextClient) || (h.pendID%2 == 0 && h.pendID < h.nextPush)) {
